@@ -1198,7 +1198,12 @@ pub fn generate(seed: u64, knobs: &Knobs) -> C10Scenario {
             }
             90..=93 => {
                 // delete and re-create before the next pass
-                if world.input_is_file || world.sources.is_empty() || avoid("delete-recreate") {
+                // (a single-file input only at L1: under a real watcher the inode watch on
+                // the entry dies with the file, a lost notification)
+                if (world.input_is_file && knobs.layer != Layer::L1)
+                    || world.sources.is_empty()
+                    || avoid("delete-recreate")
+                {
                     continue;
                 }
                 let i = rh.below(world.sources.len());
